@@ -40,15 +40,20 @@ def weight(v):
     return v * FACTOR
 
 
+def bail(v):
+    raise SystemExit(v)
+
+
 def leaf(n, label, items, flag):
     marker = 0  # @hit
     return marker
 '''
 VALUE_EXPRS = [None, None, '', 'n', 'n * 2', 'len(items)', 'weight(n)', 'FACTOR', 'float(n) / 4', 'flag', '-n',
                'label', 'items', 'None', 'nope_zz', '1/0', 'n / (n - n)', 'sum(items)', '10 ** 3', 'float("inf")',
-               '10 ** 400', '(n + 1) * 10 ** 400', 'complex(n, 1)', '[n]', 'b"5"']
-LABEL_EXPRS = ['label', 'n', 'REGION', 'len(items)', 'label.upper()', 'flag', 'weight(n)', 'nope_zz', 'items[99]']
-STATICS = ['fixed', 'eu', 7, True, 1.5, '']
+               '10 ** 400', '(n + 1) * 10 ** 400', 'complex(n, 1)', '[n]', 'b"5"', 'bail(n)']
+LABEL_EXPRS = ['label', 'n', 'REGION', 'len(items)', 'label.upper()', 'flag', 'weight(n)', 'nope_zz', 'items[99]',
+               'bail(n)']
+STATICS = ['fixed', 'eu', 7, True, 1.5, '', 0, False, 0.0]
 
 
 def plan(tier, seed):
@@ -283,7 +288,7 @@ def case_metric(seed, out, spec, wd):
     out.count('hits_checked', total)
     if dry or not nproc:
         out.count('no_processor_phases')
-    out.count('failing_value_exprs', sum(1 for d in defs if d['expr'] in ('nope_zz', '1/0', 'n / (n - n)')))
+    out.count('failing_value_exprs', sum(1 for d in defs if d['expr'] in ('nope_zz', '1/0', 'n / (n - n)', 'bail(n)')))
     out.count('label_exprs', sum(1 for d in defs for _, how, _ in d['labels'] if how == 'expr'))
     out.case({'d': defs, 'w': via_wire, 'p': nproc, 'fc': fc, 'dry': dry, 'in': inputs},
              nontrivial=compared > 0 or dry > 0 or not nproc,
